@@ -63,11 +63,13 @@ class FakeSocket:
         self.wfail = False
         self.closed = False
         self.nread = 0
+        self.quiet_reads = 0
         self.env["port"] = self
 
     def deliver(self, data):
         if not (self.eof or self.reset or self.closed):
             self.rxbuf += data
+            self.quiet_reads = 0
             return True
         return False
 
@@ -141,6 +143,7 @@ class FakeSelector:
         if s.rxbuf or s.eof or s.reset:
             return [(None, 1)]
         s.k.probe("sock.select_timeout")
+        s.quiet_reads += 1
         return []
 
     def close(self):
